@@ -342,6 +342,10 @@ class Ev:
                     ops = base[2]
                     if e["f"] < len(ops):
                         return ops[e["f"]]
+                if vname == "Some" and e["f"] == 0 and base[0] == "call" and strip_generics(base[1]).endswith("slice::get") and len(base[2]) == 2 \
+                        and base[2][1][0] == "agg" and "ops::range::Range" in str(base[2][1][1]):
+                    # the Some payload of `s.get(a..b)` is the sub-slice `s[a..b]`
+                    return self.norm(("index", base[2][0], base[2][1]))
                 return self.norm(("vfield", base, vname, e["f"]))
             if t[0] == "bin" and t[1].endswith("WithOverflow"):
                 if e["f"] == 0:
@@ -518,6 +522,11 @@ class Ev:
                 for val, name in rv.get("variants", []):
                     if name == vn:
                         return ("int", val)
+            kv = self.known_variant(a)
+            if kv is not None:
+                for val, name in rv.get("variants", []):
+                    if name == kv:
+                        return ("int", val)
             return ("discr", a)
         if k == "agg":
             ak = rv["ak"]
@@ -581,6 +590,28 @@ class Ev:
         if f.get("trait") in ("core::ops::index::Index", "core::ops::index::IndexMut") and len(args) == 2:
             return ("index", args[0], args[1])
         return ("call", path, args, (self.fn.path, b))
+
+    def known_variant(self, a, depth=0):
+        """The variant a Result-like value certainly has: the result of a crate function that provably never returns Err is Ok."""
+        if not isinstance(a, tuple) or not a or depth > 4:
+            return None
+        if a[0] == "agg" and isinstance(a[1], str) and "::" in a[1]:
+            return a[1].rsplit("::", 1)[-1]
+        if a[0] == "phi":
+            ks = {self.known_variant(x, depth + 1) for x in a[1]}
+            return next(iter(ks)) if len(ks) == 1 and None not in ks else None
+        if a[0] == "call":
+            nm = strip_generics(a[1]).split("::")[-1]
+            if nm == "branch" and "Try" in a[1] and a[2]:
+                return {"Ok": "Continue", "Some": "Continue"}.get(self.known_variant(a[2][0], depth + 1))
+            site = a[3] if len(a) > 3 else None
+            if site and site[0] in self.prog.fns:
+                ct = self.prog.fns[site[0]].blocks[site[1]].term
+                if ct["k"] == "call":
+                    tg = self.prog.call_targets(ct)
+                    if tg and all(x in self.prog.fns and self.prog.never_err(x) for x in tg):
+                        return "Ok"
+        return None
 
     def apply_closure(self, clo, cargs):
         """Return term of a crate-local closure applied to argument terms (closure environment bound to the captured values)."""
